@@ -160,8 +160,6 @@ Qed.
 (* ------------------------------------------------------------------ *)
 (* names rows of two-namespace trees *)
 
-Definition tname (l : names) : option str := nth diff_ns l None.
-Definition sname (l : names) : option str := nth 0 l None.
 
 Lemma names2 (l : names) : names_ok 2 l = true -> exists s t, l = [s; t].
 Proof.
@@ -173,26 +171,8 @@ Qed.
 (* hypotheses of the inverse theorem (all decidable) *)
 
 (* every entry has a name in the second namespace: exactly what diff needs (Theorem diff_ok_iff) *)
-Definition named_param (p : param) : bool := is_some (tname (p_names p)).
-Definition named_field (f : field) : bool := is_some (tname (f_names f)).
-Definition named_meth (m : meth) : bool := is_some (tname (m_names m)) && forallb named_param (m_params m).
-Definition named_class (c : class) : bool :=
-  is_some (tname (c_names c)) && forallb named_field (c_fields c) && forallb named_meth (c_methods c).
-Definition named (M : mappings) : bool := forallb named_class (ms_classes M).
 
 (* a parameter's first-namespace name is not part of a diff: B's must be A's at the same path, or absent *)
-Definition p_agree (oa : option param) (pb : param) : bool :=
-  opt_eqb str_eqb (sname (p_names pb)) (match oa with Some pa => sname (p_names pa) | None => None end).
-Definition params_agree (A B : list param) : bool :=
-  forallb (fun pb => p_agree (pfind (pkey pb) A) pb) B.
-Definition m_agree (oa : option meth) (mb : meth) : bool :=
-  params_agree (match oa with Some ma => m_params ma | None => [] end) (m_params mb).
-Definition meths_agree (A B : list meth) : bool :=
-  forallb (fun mb => m_agree (mfind (mkey mb) A) mb) B.
-Definition c_agree (oa : option class) (cb : class) : bool :=
-  meths_agree (match oa with Some ca => c_methods ca | None => [] end) (c_methods cb).
-Definition param_src_agree (A B : mappings) : bool :=
-  forallb (fun cb => c_agree (cfind (ckey cb) (ms_classes A)) cb) (ms_classes B).
 
 (* ------------------------------------------------------------------ *)
 (* equality of mapping trees up to the order of every map *)
@@ -267,7 +247,8 @@ Lemma param_entry_CB k ib b db :
 Proof.
   split; [reflexivity|].
   unfold param_entry. cbn [entry_apply Lparam l_info l_mk l_child pd_info].
-  unfold apply_param, doc_apply, new_param, fresh_names. cbn [pd_doc p_doc p_index p_names repeat set_nth].
+  unfold new_param, fresh_names. cbn [repeat]. rewrite change_name_1 by reflexivity. cbn [bind].
+  unfold apply_param, doc_apply. cbn [pd_doc p_doc p_index p_names].
   rewrite gen_doc_CB_apply. reflexivity.
 Qed.
 
@@ -363,7 +344,8 @@ Lemma field_entry_CB k1 k2 b db :
 Proof.
   split; [reflexivity|].
   unfold field_entry. cbn [entry_apply Lfield l_info l_mk l_child fd_info].
-  unfold apply_field, doc_apply, new_field, fresh_names. cbn [fd_doc f_doc f_desc f_names repeat set_nth fst snd].
+  unfold new_field, fresh_names. cbn [repeat fst snd]. rewrite change_name_1 by reflexivity. cbn [bind].
+  unfold apply_field, doc_apply. cbn [fd_doc f_doc f_desc f_names].
   rewrite gen_doc_CB_apply. reflexivity.
 Qed.
 
@@ -375,7 +357,7 @@ Theorem fields_level (ab : comb (list field)) :
 Proof.
   intros HA HB Ha Hb.
   assert (H21 : 2%nat <> O /\ 1%nat <> O) by (split; discriminate). destruct H21 as [H2 H1'].
-  destruct (diff_apply_level (Lfield 2 1) (Lfield_ok 2 1 H2 H1') diff_field eq ab diff_field_key Ha Hb) as (ds & r & H1 & H2' & H3 & H4 & H5).
+  destruct (diff_apply_level (Lfield 2 1) (Lfield_ok 2 1 H2) diff_field eq ab diff_field_key Ha Hb) as (ds & r & H1 & H2' & H3 & H4 & H5).
   - intros k. unfold tfind. cbn [Lfield l_tkey l_keqb].
     fold (ffind k (sideA ab)) (ffind k (sideB ab)).
     destruct (ffind k (sideA ab)) as [fa|] eqn:Ea; destruct (ffind k (sideB ab)) as [fb|] eqn:Eb.
@@ -443,7 +425,7 @@ Theorem meths_level (ab : comb (list meth)) :
 Proof.
   intros HA HB Ha Hb Hag.
   assert (H21 : 2%nat <> O /\ 1%nat <> O) by (split; discriminate). destruct H21 as [H2 H1'].
-  destruct (diff_apply_level (Lmeth 2 1) (Lmeth_ok 2 1 H2 H1') diff_meth meth_eqv ab diff_meth_key Ha Hb) as (ds & r & H1 & H2' & H3 & H4 & H5).
+  destruct (diff_apply_level (Lmeth 2 1) (Lmeth_ok 2 1 H2) diff_meth meth_eqv ab diff_meth_key Ha Hb) as (ds & r & H1 & H2' & H3 & H4 & H5).
   - intros k. unfold tfind. cbn [Lmeth l_tkey l_keqb].
     fold (mfind k (sideA ab)) (mfind k (sideB ab)).
     rewrite Forall_forall in HA, HB.
@@ -493,8 +475,9 @@ Proof.
         rewrite P1. reflexivity. }
       exists (Some (mkMeth db [Some nb; Some b] docb pr)). split.
       { unfold meth_entry. cbn [entry_apply Lmeth l_info l_mk l_child md_info].
-        unfold apply_meth, doc_apply, new_meth, fresh_names.
-        cbn [md_doc md_params m_doc m_desc m_names m_params repeat set_nth fst snd].
+        unfold new_meth, fresh_names. cbn [repeat fst snd]. rewrite change_name_1 by reflexivity. cbn [bind].
+        unfold apply_meth, doc_apply.
+        cbn [md_doc md_params m_doc m_desc m_names m_params].
         rewrite gen_doc_CB_apply. cbn [bind]. rewrite P3. reflexivity. }
       cbn [opt_rel]. unfold meth_eqv. cbn [m_desc m_names m_doc m_params].
       split; [reflexivity|split; [reflexivity|split; [reflexivity|exact P4]]].
@@ -542,7 +525,7 @@ Theorem classes_level (ab : comb (list class)) :
 Proof.
   intros HA HB Ha Hb Hag.
   assert (H21 : 2%nat <> O /\ 1%nat <> O) by (split; discriminate). destruct H21 as [H2 H1'].
-  destruct (diff_apply_level (Lclass 2 1) (Lclass_ok 2 1 H2 H1') diff_class class_eqv ab diff_class_key Ha Hb) as (ds & r & H1 & H2' & H3 & H4 & H5).
+  destruct (diff_apply_level (Lclass 2 1) (Lclass_ok 2 1 H2) diff_class class_eqv ab diff_class_key Ha Hb) as (ds & r & H1 & H2' & H3 & H4 & H5).
   - intros k. unfold tfind. cbn [Lclass l_tkey l_keqb].
     fold (cfind k (sideA ab)) (cfind k (sideB ab)).
     rewrite Forall_forall in HA, HB.
@@ -594,8 +577,9 @@ Proof.
         rewrite F1. cbn [bind]. rewrite M1. reflexivity. }
       exists (Some (mkClass [Some nb; Some b] docb fr mr)). split.
       { unfold class_entry. cbn [entry_apply Lclass l_info l_mk l_child cd_info].
-        unfold apply_class, doc_apply, new_class, fresh_names.
-        cbn [cd_doc cd_fields cd_methods c_doc c_names c_fields c_methods repeat set_nth].
+        unfold new_class, fresh_names. cbn [repeat]. rewrite change_name_1 by reflexivity. cbn [bind].
+        unfold apply_class, doc_apply.
+        cbn [cd_doc cd_fields cd_methods c_doc c_names c_fields c_methods].
         rewrite gen_doc_CB_apply. cbn [bind]. rewrite F3. cbn [bind]. rewrite M3. reflexivity. }
       cbn [opt_rel]. unfold class_eqv. cbn [c_names c_doc c_fields c_methods].
       split; [reflexivity|split; [reflexivity|split; [exact F4|exact M4]]].
@@ -607,8 +591,6 @@ Qed.
 (* Theorem 2: diff and apply are inverse *)
 
 (* two namespaces with different names (apply_to looks the target namespace up by name) *)
-Definition two_ns (M : mappings) : bool :=
-  match ms_ns M with [n0; n1] => negb (str_eqb n0 n1) | _ => false end.
 
 Lemma list_str_eqb_refl (l : list str) : list_eqb str_eqb l l = true.
 Proof. induction l as [|x l IH]; [reflexivity|]. cbn [list_eqb]. rewrite str_eqb_refl, IH. reflexivity. Qed.
@@ -876,7 +858,6 @@ Qed.
 (* ------------------------------------------------------------------ *)
 (* known finding F3 and non-vacuity *)
 
-Definition f3_class (A B : mappings) : bool := negb (param_src_agree A B).
 
 Definition inverse_law (A B : mappings) : Prop :=
   exists d r, diff A B = Ok d /\ apply_to d A (nth 1 (ms_ns A) []) = Ok r /\ mequiv r B.
